@@ -177,6 +177,9 @@ func TestZZVerifC01(t *testing.T) {
 		if li%10 == 7 {
 			prelude = gen.LockDelayScenario()
 		}
+		if li%10 == 3 {
+			prelude = gen.GatewayShrinkScenario(lr)
+		}
 		for i := 0; i < ln; i++ {
 			idx += 1 + uint64(lr.Intn(2))
 			var c gen.Cmd
